@@ -22,7 +22,7 @@ use crate::Gift128;
 use cipher::{BlockCipherDecrypt, BlockCipherEncrypt, KeyInit};
 use refmodels::gift as r;
 
-//@ harness name=gift_leaf_pack prop=C10,C20 tier=quick bits=128 est=10 desc="D: unpacking(packing(b)) == b for all 2^128 blocks and packing(unpacking(S)) == S for all 2^128 states (packing is a bijective change of representation)"
+//@ harness name=gift_leaf_pack prop=C10,C20 tier=quick bits=128 est=5 desc="D: unpacking(packing(b)) == b for all 2^128 blocks and packing(unpacking(S)) == S for all 2^128 states (packing is a bijective change of representation)"
 verif_harness! {
     name: gift_leaf_pack,
     bytes: 16,
@@ -68,7 +68,7 @@ fn quint_inv(inp: &[u8], q: usize) -> Option<bool> {
     Some(u128::from_be_bytes(o) == e)
 }
 
-//@ harness name=gift_quint_lo prop=C10,C20 tier=quick bits=256 est=130 need=10 desc="D: rounds 1-20: for q = 0..3: unpacking(quintuple_round(packing(X), precompute_rkeys(key)[10q..], GIFT_RC[5q..])) == the 5 spec rounds 5q+1..5q+5 (GS, P128, U/V round keys of the spec key schedule, LFSR constants; inverse order for the inverse), all keys, all states"
+//@ harness name=gift_quint_lo prop=C10,C20 tier=quick bits=256 est=190 need=10 desc="D: rounds 1-20: for q = 0..3: unpacking(quintuple_round(packing(X), precompute_rkeys(key)[10q..], GIFT_RC[5q..])) == the 5 spec rounds 5q+1..5q+5 (GS, P128, U/V round keys of the spec key schedule, LFSR constants; inverse order for the inverse), all keys, all states"
 verif_harness! {
     name: gift_quint_lo,
     bytes: 32,
@@ -81,7 +81,7 @@ verif_harness! {
         Some(true)
     }
 }
-//@ harness name=gift_quint_hi prop=C10,C20 tier=quick bits=256 est=135 need=10 desc="D: rounds 21-40: for q = 4..7: unpacking(quintuple_round(packing(X), precompute_rkeys(key)[10q..], GIFT_RC[5q..])) == the 5 spec rounds 5q+1..5q+5 (GS, P128, U/V round keys of the spec key schedule, LFSR constants; inverse order for the inverse), all keys, all states"
+//@ harness name=gift_quint_hi prop=C10,C20 tier=quick bits=256 est=190 need=10 desc="D: rounds 21-40: for q = 4..7: unpacking(quintuple_round(packing(X), precompute_rkeys(key)[10q..], GIFT_RC[5q..])) == the 5 spec rounds 5q+1..5q+5 (GS, P128, U/V round keys of the spec key schedule, LFSR constants; inverse order for the inverse), all keys, all states"
 verif_harness! {
     name: gift_quint_hi,
     bytes: 32,
@@ -94,7 +94,7 @@ verif_harness! {
         Some(true)
     }
 }
-//@ harness name=gift_quint_inv_lo prop=C10,C20 tier=quick bits=256 est=130 need=10 desc="D: inverse of rounds 1-20: for q = 0..3: unpacking(inv_quintuple_round(packing(X), precompute_rkeys(key)[10q..], GIFT_RC[5q..])) == the 5 spec rounds 5q+1..5q+5 (GS, P128, U/V round keys of the spec key schedule, LFSR constants; inverse order for the inverse), all keys, all states"
+//@ harness name=gift_quint_inv_lo prop=C10,C20 tier=quick bits=256 est=135 need=10 desc="D: inverse of rounds 1-20: for q = 0..3: unpacking(inv_quintuple_round(packing(X), precompute_rkeys(key)[10q..], GIFT_RC[5q..])) == the 5 spec rounds 5q+1..5q+5 (GS, P128, U/V round keys of the spec key schedule, LFSR constants; inverse order for the inverse), all keys, all states"
 verif_harness! {
     name: gift_quint_inv_lo,
     bytes: 32,
@@ -107,7 +107,7 @@ verif_harness! {
         Some(true)
     }
 }
-//@ harness name=gift_quint_inv_hi prop=C10,C20 tier=quick bits=256 est=145 need=10 desc="D: inverse of rounds 21-40: for q = 4..7: unpacking(inv_quintuple_round(packing(X), precompute_rkeys(key)[10q..], GIFT_RC[5q..])) == the 5 spec rounds 5q+1..5q+5 (GS, P128, U/V round keys of the spec key schedule, LFSR constants; inverse order for the inverse), all keys, all states"
+//@ harness name=gift_quint_inv_hi prop=C10,C20 tier=quick bits=256 est=190 need=10 desc="D: inverse of rounds 21-40: for q = 4..7: unpacking(inv_quintuple_round(packing(X), precompute_rkeys(key)[10q..], GIFT_RC[5q..])) == the 5 spec rounds 5q+1..5q+5 (GS, P128, U/V round keys of the spec key schedule, LFSR constants; inverse order for the inverse), all keys, all states"
 verif_harness! {
     name: gift_quint_inv_hi,
     bytes: 32,
@@ -200,7 +200,7 @@ fn arb_state(inp: &[u8]) -> (Gift128, [u32; 80], [u8; 16]) {
     (Gift128 { k }, k, take(inp, 320))
 }
 
-//@ harness name=gift_wire_enc prop=C10,C20 tier=quick bits=2688 stub=1 est=40 desc="W: Gift128::encrypt_block(b) == unpacking(Q_7(..Q_0(packing(b)))) with Q_q = quintuple_round(., k[10q..], GIFT_RC[5q..]), quintuple_round uninterpreted, ARBITRARY round keys, all blocks (slice offsets of the round-key and constant tables)"
+//@ harness name=gift_wire_enc prop=C10,C20 tier=quick bits=2688 stub=1 est=35 desc="W: Gift128::encrypt_block(b) == unpacking(Q_7(..Q_0(packing(b)))) with Q_q = quintuple_round(., k[10q..], GIFT_RC[5q..]), quintuple_round uninterpreted, ARBITRARY round keys, all blocks (slice offsets of the round-key and constant tables)"
 verif_harness! {
     name: gift_wire_enc,
     bytes: 336,
@@ -222,7 +222,7 @@ verif_harness! {
         Some(b.0 == o)
     }
 }
-//@ harness name=gift_wire_dec prop=C10,C20 tier=quick bits=2688 stub=1 est=40 desc="W: Gift128::decrypt_block(b) == unpacking(Qi_0(..Qi_7(packing(b)))) with Qi_q = inv_quintuple_round(., k[10q..], GIFT_RC[5q..]), inv_quintuple_round uninterpreted, ARBITRARY round keys, all blocks"
+//@ harness name=gift_wire_dec prop=C10,C20 tier=quick bits=2688 stub=1 est=35 desc="W: Gift128::decrypt_block(b) == unpacking(Qi_0(..Qi_7(packing(b)))) with Qi_q = inv_quintuple_round(., k[10q..], GIFT_RC[5q..]), inv_quintuple_round uninterpreted, ARBITRARY round keys, all blocks"
 verif_harness! {
     name: gift_wire_dec,
     bytes: 336,
@@ -251,7 +251,7 @@ verif_harness! {
 
 // ------------------------------------------------------------------ round trips
 
-//@ harness name=gift_rt_ed prop=C01,C20 tier=quick bits=2688 est=25 desc="D: decrypt_block(encrypt_block(b)) == b on an ARBITRARY round-key state (superset of all keys), all blocks"
+//@ harness name=gift_rt_ed prop=C01,C20 tier=quick bits=2688 est=20 desc="D: decrypt_block(encrypt_block(b)) == b on an ARBITRARY round-key state (superset of all keys), all blocks"
 verif_harness! {
     name: gift_rt_ed,
     bytes: 336,
